@@ -26,3 +26,39 @@ Proof.
   exists ra1, dec1, ra2, dec2. split; [exact H1|]. split; [exact H2|].
   rewrite V2, star_nopm, V1, star_nopm. unfold fk5_rot. apply rot_equ_there_and_back.
 Qed.
+
+(* precession_ecliptical there and back, both epochs within 5 centuries of J2000 (no proper
+   motion): the returned direction is within a chord of 6e-9 (3.44e-7 degree) of the start, hence
+   within the property's 1e-6 degree, at every latitude.  Unlike the equatorial set, the
+   ecliptical polynomials of the reverse trip are not exact inverses: eta'+eta = -0.00001 t^2
+   arcsec and Pi'-Pi-p = 0.0001 t + 0.000042 T^2 t + 0.000042 T t^2 + 0.000006 t^3 arcsec. *)
+Lemma ecl_rot_angles j0 j1 v :
+  ecl_rot j0 j1 v = rot_ecl (ecl_E (cen J2000 j0) (cen j0 j1)) (ecl_Pi (cen J2000 j0) (cen j0 j1))
+                            (ecl_P (cen J2000 j0) (cen j0 j1)) v.
+Proof. reflexivity. Qed.
+
+Theorem ecl_there_and_back j0 j1 l0 b0 :
+  -5 <= cen J2000 j0 <= 5 -> -5 <= cen J2000 j1 <= 5 ->
+  exists lon1 lat1 lon2 lat2,
+    f_precession_ecliptical Rops (ep j0) (ep j1) (ang l0) (ang b0) (ang 0) (ang 0)
+    = VTuple [ang lon1; ang lat1] /\
+    f_precession_ecliptical Rops (ep j1) (ep j0) (ang lon1) (ang lat1) (ang 0) (ang 0)
+    = VTuple [ang lon2; ang lat2] /\
+    chord (uvec (d2r lon2) (d2r lat2)) (uvec (d2r l0) (d2r b0)) <= 6 / 1000000000 /\
+    cos (d2r (1 / 1000000)) <= dot (uvec (d2r lon2) (d2r lat2)) (uvec (d2r l0) (d2r b0)).
+Proof.
+  intros HT HU.
+  destruct (ecl_rotation_thm j0 j1 l0 b0 0 0) as (lon1 & lat1 & H1 & _ & _ & V1).
+  destruct (ecl_rotation_thm j1 j0 lon1 lat1 0 0) as (lon2 & lat2 & H2 & _ & _ & V2).
+  exists lon1, lat1, lon2, lat2. split; [exact H1|]. split; [exact H2|].
+  assert (Hc : chord (uvec (d2r lon2) (d2r lat2)) (uvec (d2r l0) (d2r b0)) <= 6 / 1000000000).
+  { rewrite V2, star_nopm, V1, star_nopm. rewrite !ecl_rot_angles.
+    set (T := cen J2000 j0) in *. set (U := cen J2000 j1) in *.
+    assert (E1 : cen j0 j1 = U - T) by (unfold U, T, cen; field).
+    assert (E2 : cen j1 j0 = - (U - T)) by (unfold U, T, cen; field).
+    rewrite E1, E2.
+    pose proof (rot_ecl_there_and_back T U (uvec (d2r l0) (d2r b0)) HT HU) as Hb. cbv zeta in Hb.
+    unfold vnorm in Hb. rewrite uvec_norm, sqrt_1, Rmult_1_r in Hb. exact Hb. }
+  split; [exact Hc|].
+  apply chord_6e9_within_microdegree; [apply uvec_norm | apply uvec_norm | exact Hc].
+Qed.
